@@ -15,6 +15,8 @@ OPS = {
     "IT1": "insert into t(k, v, s) values (2, 10, 'b'), (4, 20, 'd'), (6, 10, 'f')",
     "IT2": "insert into t(k, v, s) values (1, 5, null), (5, 10, 'e'), (9, 7, ''), (4, 1, 'dd')",
     "IT3": "insert into t(k, v, s) values (3, null, 'n'), (8, null, null)",
+    # 40 rows: the key column spans several 64-byte blocks (range scans must seek inside a row-set)
+    "ITL": "insert into t(k, v, s) values " + ", ".join(f"({k}, {k % 9}, 'l{k % 4}')" for k in range(20, 60)),
     "IU": "insert into u values (1, 100), (4, 400), (5, null), (7, 700)",
     "ITS": "insert into t(k, v, s) select k + 10, w, 'z' from u",
     "D1": "delete from t where k < 3",
@@ -38,6 +40,11 @@ QUERIES = [
     ("select v, k from t order by v, k", [0, 1]),
     ("select k, w from u where k < 5", None),
     ("select k from t where 4 < k", None),
+    ("select k from t where k > 41", None),
+    ("select k from t where k > 35", None),
+    ("select k, s from t where k > 51", None),
+    ("select k, v from t where k >= 33 and k < 47", None),
+    ("select k from t where k > 35 and v = 1", None),
 ]
 
 
